@@ -387,7 +387,7 @@ def coq_term(c, io):
     return "(mkCase %s %s %s %s %s)" % (out_term(io[0]), out_term(io[1]), ps, fr, tg)
 
 
-KCLASS = {0: None, 1: "known_C35_K1_import_scope", 2: "known_C35_K2_comment_at_comparison"}
+KCLASS = {0: None, 1: "known_C35_K1_import_scope"}
 
 
 def judge(c, io, r):
